@@ -13,7 +13,15 @@
 (T) code -> spec: those recordings and seeded random histories (wider hyperparameters, 5 calls) are converted to rationals and
     Trace_Optimizers.tla re-validates each call exactly (TLC decides); where a square root is irrational the value is bridged:
     TLC emits the algebraic number and the harness compares floats.
-(S) Rotosolve: spec/sys/Rotosolve.tla (lattice phases), see rotosolve_part().
+(S) Rotosolve / Rotoselect: spec/sys/Roto.tla states the objective family  sum_d A s_d + sum B s_d s_e  (s_d = sin(fq x_d + ph), lattice
+    phases in units of pi/16, A odd, B even, every sine in {-1, 0, 1}) in integer arithmetic; a one-parameter restriction is the
+    sinusoid a sin(fq theta + ph) whose exact minima are sin = -sign(a).  RotoGen.tla runs the coordinate sweep one sub-step per TLC
+    transition and TLC checks SubMin (no better value at s_d = -1 / +1 under any generator: the global minimum, F being affine in s_d),
+    Descent, Exact; its histories are replayed through RotosolveOptimizer (analytic branch, frequencies 1 and 2 via nums_frequency /
+    spectra, several arguments, vectors, non-trainable arguments, full_output) and RotoselectOptimizer, and the recorded results are
+    decided by Trace_Roto.tla (minimiser condition mod 2 pi / fq, best generator, cost before the call, sub-step minima).
+Not covered (partial): the numeric multi-frequency branch of Rotosolve, QNG's metric computed from a QNode, SPSA / QNSPSA / ShotAdaptive /
+Riemannian / adaptive optimizers, torch / jax interfaces and the *QJIT optimizers.
 """
 import json
 import math
@@ -413,7 +421,7 @@ def gradient_part(tier, seed, only=None):
         hists = [{"cfg": cfgs[j["c"]], "hist": [dict(step_rec(t), call=calls_alpha[t[0]]) for t in j["h"]]} for j in g.json_lines]
         if len(hists) < 500:
             raise lib.MachineryError(f"generator produced only {len(hists)} histories")
-        n_random = 400 if tier == "quick" else 8000
+        n_random = 400 if tier == "quick" else 4000
         rjobs = [random_job(rng, 5) for _ in range(n_random)]
     else:
         g = None
@@ -457,9 +465,9 @@ def gradient_part(tier, seed, only=None):
     if hists and neg_cmp == 0:
         raise lib.MachineryError("no comparator negative control could be built")
 
-    # (T) trace validation: generated (a stratified sample in the quick tier) + random histories, controls
+    # (T) trace validation: generated (a stratified sample) + random histories, controls
     traces, meta = [], []
-    stride = 1 if only is not None or tier != "quick" else max(1, len(gjobs) // 1000)
+    stride = 1 if only is not None else max(1, len(gjobs) // (1000 if tier == "quick" else 8000))
     for j, ((cfg, calls), obs) in enumerate(zip(gjobs, gobs)):
         if (j + seed) % stride == 0:
             traces.append({"cfg": cfg, "calls": calls[:len(obs)], "obs": [obs_to_trace(o, cfg["kind"]) for o in obs], "emit": False})
@@ -538,12 +546,13 @@ def gradient_part(tier, seed, only=None):
                 samples.append(d)
     if only is None:
         for k in KINDS:
-            if kinds_seen[k] < 50:
+            if kinds_seen[k] < 20:
                 raise lib.MachineryError(f"vacuous: only {kinds_seen[k]} validated calls for {k}")
         if bridged == 0 or stats["irrational"] == 0:
             raise lib.MachineryError("vacuous: no irrational (bridged) step was exercised")
     cov = {"states": (g.distinct if g else 0) + r.distinct, "transitions": (g.generated if g else 0) + r.generated,
-           "traces_validated_against_impl": len(gjobs) + len(rjobs), "evaluations": validated_calls,
+           "traces_validated_against_impl": len(gjobs) + len(rjobs), "histories_revalidated_by_tlc": len(traces) - len(controls),
+           "evaluations": validated_calls,
            "distinct_nontrivial": len(nontriv),
            "rule": "evaluations = public optimizer calls validated exactly by TLC (Trace_Optimizers); non-trivial = distinct (optimizer, "
                    "hyperparameters, argument layout, call history) with at least two validated gradient calls in a row, i.e. state carried "
@@ -776,7 +785,7 @@ def roto_compare(pr, exp, obs):
 
 def rotosolve_part(tier, seed):
     rng = random.Random(seed + 61)
-    n_solve, n_select, steps = (260, 140, 2) if tier == "quick" else (2500, 1200, 3)
+    n_solve, n_select, steps = (160, 90, 2) if tier == "quick" else (1200, 600, 3)
     probs = [roto_problem(rng, "rotosolve" if i < n_solve else "rotoselect", i) for i in range(n_solve + n_select)]
     tprobs = [{k: v for k, v in p.items() if k != "layout"} for p in probs]
     g = lib.run_tlc_mc("RotoGen", {"Problems": tla_set(tprobs)}, lib.workdir(PID, "rotogen"), constants={"MaxSteps": steps},
